@@ -669,6 +669,9 @@ def wrapper_cases(H, rng, kind, holes="none", flow="acyclic"):
     return out
 
 
+# wrappers whose last nested kernel call is guarded by a test on the data (`if idx.sum() > 0`, `if len(boundary) >= 3`)
+OPTIONAL_TAIL = {"delineate_area": 1, "delineate_area_noinlets": 1, "delineate_boundary": 1,
+                 "delineate_boundary_nomask": 1}
 ALLOWED = {"delineate_boundary": [1], "delineate_boundary_nomask": [1], "points_inside_polygon_out": [2]}
 
 
@@ -709,14 +712,22 @@ def correspondence(ctx, H, rec):
     replies = ctx.lean.ask([f"run {name} [{','.join(toks)}]" for name, _k, toks, _e, _r, _c in rows])
     safes = dict(zip(sorted({r[0] for r in rows}),
                      ctx.lean.ask([f"safe {n} {C.ilist(ALLOWED.get(n, []))}" for n in sorted({r[0] for r in rows})])))
+    marks = ctx.lean.ask([f"mark {name} [{','.join(toks)}]" for name, _k, toks, _e, _r, _c in rows])
     never_changed, witness = {}, {}
-    for (name, kind, toks, events, err, changed), rep, hol in zip(rows, replies, case_holes):
+    for (name, kind, toks, events, err, changed), rep, hol, mk in zip(rows, replies, case_holes, marks):
         case = {"wrapper": name, "kind": kind, "kinds": toks[:4], "error": err, "holes": hol}
         if not rep.startswith("ok "):
             ctx.disagree(f"driver: {rep}", case)
             continue
         mev = [] if rep.split()[1] == "-" else rep.split()[1].split("|")
         mwritten = [int(t) for t in C.parse_list(rep.split("written=")[1])]
+        # the contents semantics (mrun, marking instance): buffers whose CONTENTS the model says may change
+        marked = [int(t) for t in C.parse_list(mk.split(" ", 1)[1])] if mk.startswith("ok ") else None
+        if marked is None or sorted(marked) != sorted(mwritten):
+            ctx.disagree(f"{name}: contents semantics marks {mk}, written set is {mwritten}", {"wrapper": name})
+        elif err is None and not set(changed) <= set(marked):
+            ctx.disagree(f"{name}: caller buffers {changed} changed contents, the contents semantics marks {marked}",
+                         {"wrapper": name, "kind": kind})
         model = []
         for e in mev:
             nm, rest = e.split("(", 1)
@@ -740,8 +751,12 @@ def correspondence(ctx, H, rec):
                             ctx.disagree(f"{name}: kernel {nm} changed argument {j}, which the model marks read-only",
                                          case)
         if err is None:
+            rest = model[len(usable):]
+            if 0 < len(rest) <= OPTIONAL_TAIL.get(name, 0):
+                rest = []       # data-dependent last step (empty area, fewer than 3 boundary cells): legitimately skipped
+                ctx.hist["corr/optional_tail_skipped"] = ctx.hist.get("corr/optional_tail_skipped", 0) + 1
             model_s += [f"{mnm}(" + ",".join("-" if al is None else str(al) for al, _w in margs) + ")"
-                        for mnm, margs in model[len(usable):]]
+                        for mnm, margs in rest]
         ctx.compare(f"C18/{name}", case, "|".join(impl_s), "|".join(model_s))
         # caller buffers observed to change must be exactly those the model reports as written (and allowed)
         if err is None and sorted(changed) != [] and not set(changed) <= set(mwritten):
